@@ -43,6 +43,13 @@ EXTENDS Naturals, Integers, Sequences, FiniteSets, TLC
 \*   "alloc-cleared-on-every-connack"   C06  the allocated-id table is emptied on a resumed session too
 \*   "qos2-bypasses-receive-maximum"    C09  the receive-maximum gate only looks at QoS 1
 \*   "resubmit-unsorted"                C10  the retransmission queue keeps the order the close handling left it in
+\*   "ping-pushout-uses-requested-keep-alive"   C14  an acknowledged operation pushes the next ping out by the keep-alive the client asked for, not the negotiated one
+\*   "settings-wiped-at-open"                   C07  the negotiated settings (with the server-assigned client id) are forgotten when the next connection opens
+\*   "policy-before-inflight-exceptions"        C15  a half-written retransmission / PUBREL meets the offline policy at disconnection like a fresh operation
+\*   "interruptions-counted-when-bound"         C18  an operation that merely holds a packet id (not sent on this connection) counts as interrupted
+\*   "timer-dropped-while-write-pending"        C08  while a write is outstanding the reported service time forgets the ack timeouts
+\*   "inbound-aliases-survive-resumed-session"  C17  the inbound alias table is only forgotten when the session is
+\*   "qos2in-kept-when-nothing-in-flight"       C05  a lost session forgets the unreleased inbound QoS 2 ids only if something was in flight
 CONSTANTS PidMax,      \* packet identifiers are 1..PidMax (65535 in the code)
           TPS,         \* ticks per second
           UnitsOn,     \* TRUE: check Service plans against the unit model of the buffer
@@ -197,7 +204,7 @@ AckableCompletion(s, o) ==
 \* apply_ping_extension_on_operation_success
 PingExtension(s, o) ==
     IF IsAckable(o) /\ o.pingBase # None /\ s.settings.known
-    THEN LET ext == o.pingBase + s.settings.ka * TPS
+    THEN LET ext == o.pingBase + (IF "ping-pushout-uses-requested-keep-alive" \in EngDefects THEN s.cfg.ka ELSE s.settings.ka) * TPS
          IN IF s.nextPing # None /\ ext > s.nextPing THEN [s EXCEPT !.nextPing = ext] ELSE s
     ELSE s
 
@@ -293,7 +300,8 @@ ConnOpened(s0, t, deadline) ==
     IF s.st # "Disconnected" THEN Wrap(Ret(s, "InternalStateError", <<>>))
     ELSE LET c == CreateOp([s EXCEPT !.st = "PendingConnack", !.cur = None, !.pwc = FALSE, !.enc = 0, !.encTot = 0, !.buf = 0],
                            "connect", [NoAttrs EXCEPT !.clean = CleanStart(s), !.cid = ConnectClientId(s), !.units = s.cfg.connectUnits])
-         IN Ret([c.s EXCEPT !.hpQ = Cons(c.id, @), !.connackTmo = deadline], "ok", <<>>)
+             s2 == [c.s EXCEPT !.hpQ = Cons(c.id, @), !.connackTmo = deadline]
+         IN Ret(IF "settings-wiped-at-open" \in EngDefects THEN [s2 EXCEPT !.settings = [known |-> FALSE]] ELSE s2, "ok", <<>>)
 
 ----------------------------------------------------------------------------------------------------
 \* handle_network_event: ConnectionClosed
@@ -318,6 +326,7 @@ CloseCurrent(s) ==
          IN CASE o.kind \in {"sub", "unsub"} ->
                      IF PolicyKeeps(s.cfg.policy, o.kind, o.qos) THEN done([s EXCEPT !.userQ = Cons(id, @)])
                      ELSE failed("OfflineQueuePolicyFailed")
+              [] o.kind = "pub" /\ "policy-before-inflight-exceptions" \in EngDefects /\ ~PolicyKeeps(s.cfg.policy, o.kind, o.qos) -> failed("OfflineQueuePolicyFailed")
               [] o.kind = "pub" ->
                      IF o.dup THEN (IF id \in Range(s.pendPub) THEN done(s) ELSE done([s EXCEPT !.resubQ = Cons(id, @)]))
                      ELSE IF o.qos = 2 /\ o.pubrel THEN done([s EXCEPT !.hpQ = Cons(id, @)])
@@ -335,7 +344,8 @@ MarkSlowStart(s) ==
 BumpInterruptions(s) ==
     IF s.cfg.retries = None THEN s
     ELSE LET cnt(id) == Cardinality({p \in DOMAIN s.pendNon : s.pendNon[p] = id}) + Cardinality({p \in DOMAIN s.pendPub : s.pendPub[p] = id})
-         IN [s EXCEPT !.ops = [id \in DOMAIN @ |-> [@[id] EXCEPT !.intr = @ + cnt(id)]]]
+             bound(id) == IF "interruptions-counted-when-bound" \in EngDefects /\ s.ops[id].pid # 0 /\ cnt(id) = 0 THEN 1 ELSE 0
+         IN [s EXCEPT !.ops = [id \in DOMAIN @ |-> [@[id] EXCEPT !.intr = @ + cnt(id) + bound(id)]]]
 
 \* pubOrder / nonOrder: the HashMap iteration orders of the two pending tables (values)
 ConnClosed(s0, t, pubOrder, nonOrder) ==
@@ -600,7 +610,8 @@ NextServiceTime(s0, t) ==
     CASE s.st = "PendingConnack" -> MinT(QueueTime(s, "HighPriorityOnly"), s.connackTmo)
       [] s.st = "Connected" ->
              LET base == MinT(s.pingTmo, MinTmo(s)) IN
-             IF s.pwc THEN base ELSE MinT(QueueTime(s, "All"), MinT(base, s.nextPing))
+             IF s.pwc THEN (IF "timer-dropped-while-write-pending" \in EngDefects THEN s.pingTmo ELSE base)
+             ELSE MinT(QueueTime(s, "All"), MinT(base, s.nextPing))
       [] s.st = "PendingDisconnect" -> MinT(QueueTime(s, "HighPriorityOnly"), MinTmo(s))
       [] OTHER -> None
 
@@ -637,7 +648,8 @@ ApplySessionPresent(s, sp) ==
                        s1 == [s EXCEPT !.resubQ = <<>>, !.userQ = @ \o keep,
                                        !.ops = [id \in DOMAIN @ |-> IF id \in SeqToSet(keep) /\ @[id].kind = "pub" THEN [@[id] EXCEPT !.dup = FALSE] ELSE @[id]]]
                        f == FailSeq(s1, rej, "OfflineQueuePolicyFailed", "rx")
-                   IN [s |-> [f.s EXCEPT !.qos2In = {}, !.alloc = EmptyFn], err |-> f.err, evs |-> f.evs]
+                   IN [s |-> [f.s EXCEPT !.qos2In = IF "qos2in-kept-when-nothing-in-flight" \in EngDefects /\ s.resubQ = <<>> THEN @ ELSE {}, !.alloc = EmptyFn],
+                       err |-> f.err, evs |-> f.evs]
         s2 == r1.s
         inUser == {id \in SeqToSet(s2.userQ) : id \in DOMAIN s2.ops}
         boundPids == {s2.ops[id].pid : id \in inUser} \ {0}
@@ -660,7 +672,7 @@ HandleConnack(s, p) ==
     ELSE IF p.rc # 0 THEN Ret(s, "ConnectionEstablishmentFailure", <<EvSurface(s, "CONNACK", p)>>)
     ELSE LET set == Negotiate(s, p)
              s1 == [s EXCEPT !.st = "Connected", !.hasConn = TRUE, !.settings = set, !.connackTmo = None,
-                             !.inAl = EmptyFn, !.pingTmo = None,
+                             !.inAl = IF "inbound-aliases-survive-resumed-session" \in EngDefects /\ p.sp = 1 THEN @ ELSE EmptyFn, !.pingTmo = None,
                              !.nextPing = IF set.ka > 0 THEN s.now + set.ka * TPS ELSE None]
              s2 == ResetOutAlias(s1, Dflt(p.tam, 0))
              tot(ops, S) == LET RECURSIVE sum(_) sum(T) == IF T = {} THEN 0 ELSE LET x == CHOOSE y \in T : TRUE IN ops[x].slowv + sum(T \ {x}) IN sum(S)
